@@ -348,7 +348,7 @@ fn hierarchy__order_and_restriction() {
             let bytes = s.serialize().unwrap();
             assert!(bytes.len() == s.length(), "C13: access structure: announced length");
             let back = AccessStructure::deserialize(&bytes).unwrap();
-            assert!(back == s, "C13: the access structure with hierarchy {order:?} does not survive a serialization round-trip (order or parameters changed)");
+            assert!(back == s, "C02/C03/C13: the access structure with hierarchy {order:?} does not survive a serialization round-trip (order or parameters changed)");
         }
         // deletions: the remaining attributes keep order, parameters and restrictions; lookups by name stay right
         for del in 0..order.len() {
